@@ -22,6 +22,9 @@ fn enc_pmsg(m: &ParseErrorMessage, out: &mut Vec<u64>) {
             enc_text(a, out);
             enc_text(b, out)
         }
+        // a message the model does not know
+        #[allow(unreachable_patterns)]
+        _ => out.push(998),
     }
 }
 
@@ -38,6 +41,9 @@ fn enc_bmsg(m: &BuildErrorMessage, out: &mut Vec<u64>) {
         MainIsMissing => (7, None),
         MainIsNotAProcedure => (8, None),
         MainMustNotHaveParameters => (9, None),
+        // a message the model does not know
+        #[allow(unreachable_patterns)]
+        _ => (998, None),
     };
     out.push(tag);
     if let Some(n) = name {
@@ -91,6 +97,9 @@ fn enc_smsg(m: &SemanticErrorMessage, out: &mut Vec<u64>) {
         }
         IndexingNonArray => out.push(15),
         IndexingWithNonInteger => out.push(16),
+        // a message the model does not know
+        #[allow(unreachable_patterns)]
+        _ => out.push(998),
     }
 }
 
@@ -109,6 +118,8 @@ pub fn enc_emsg(m: &ErrorMessage, out: &mut Vec<u64>) {
             out.push(3);
             enc_smsg(m, out)
         }
+        #[allow(unreachable_patterns)]
+        _ => out.push(998),
     }
 }
 
